@@ -12,6 +12,8 @@ K3 the matching is kept symmetric: every store mate[a] = b into the matching arr
    with mate[b] = a (in every function the array flows through) -- without it "exactly one double bond" fails
 K4 completion: kekulize() returns success only with the delocalised subgraph emptied, and is_kekulized() is the
    emptiness of that same field
+K5 entry into the aromatic system: the parser gives a bond the order 1.5 only on paths where no bond symbol was written
+   for it, on either ring digit ("implicit aromatic bonds between lower-case atoms" -- an explicit '-' must stay single)
 Not decided (value level, see DESIGN.md §4 C05): that the search finds a perfect matching whenever one exists
 (the property text documents a genuine defect there: no blossom contraction), that pruning keeps exactly the
 atoms that need a pi bond, and independence from atom order.
@@ -465,3 +467,6 @@ def run(ctx, rep):
     ds_field = check_completion(ctx, rep, K, IK)
     check_frame(ctx, rep, K, ds_field)
     check_symmetric(ctx, rep, M)
+    # K5: which bonds enter the aromatic system at all: order 1.5 only where no bond symbol was written (shared with C03/R6)
+    from rules.C03 import check_explicit_bond_symbols
+    check_explicit_bond_symbols(ctx, rep, "K5")
